@@ -2,6 +2,7 @@ package chk
 
 import (
 	"fmt"
+	"strings"
 
 	"golang.org/x/tools/go/ssa"
 )
@@ -13,7 +14,7 @@ func checkC16(c *Ctx, r *Report) {
 	r.Explanation = "Over the functions reachable from the exported helpers of avc, hevc, sei, aac, av1 that take raw bytes or readers (and String/Payload/Size of their message types): " +
 		"R1 no explicit panic reachable; G1 allocations sized by wide untrusted values (Exp-Golomb counts, 32-bit lengths) are guarded by a comparison; " +
 		"G2 every cycle of every data-driven loop passes an error test of the sticky-error bit reader or a bounded counter test. " +
-		"G3 a slice made in a function and indexed there by a counter is indexed below the length it was made with (decided when both are the same value or constants). G4 every constant index or constant slice bound on a slice is dominated by a length test, long enough by construction, or rests on a checked invariant of the decoder; G9 in the start-code scanners `for i < len(s)-k`, every element i+c of s that is read (directly or through a variable set to i+c) has c <= k or its own test against the length; G10 a loop cursor advanced by an untrusted length is wider than that length (no wrap-around); G11 in a counted loop, an element s[cursor+c] addressed through a second loop variable advanced by constants is read only after a test in the same iteration that len(s) >= cursor+k with k > c, or under a test before the loop that is linear in the loop bound and covers the last iteration (closed form of the cursor); G-NILMAP no assignment m[k] = v to a map that may still be the nil zero value of its variable on some path; G8 an untrusted value used as an index is compared with the length of the slice first (or has too few bits to exceed a fixed table); G5 every integer division by a non-constant is dominated by a non-zero test (through unexported helpers: at every call site). Does not decide computed indices of the NAL walkers (value-range reasoning), nor time constants."
+		"G3 a slice made in a function and indexed there by a counter is indexed below the length it was made with (decided when both are the same value or constants). G4 every constant index or constant slice bound on a slice is dominated by a length test, long enough by construction, or rests on a checked invariant of the decoder; G9 in the start-code scanners `for i < len(s)-k`, every element i+c of s that is read (directly or through a variable set to i+c) has c <= k or its own test against the length; G10 a loop cursor advanced by an untrusted length is wider than that length (no wrap-around); G11 in a counted loop, an element s[cursor+c] addressed through a second loop variable advanced by constants is read only after a test in the same iteration that len(s) >= cursor+k with k > c, or under a test before the loop that is linear in the loop bound and covers the last iteration (closed form of the cursor); L-NEGCONV a signed difference (length or parameter minus a constant) converted to an unsigned type and used as a bound is preceded by a test that it is non-negative; G3D an index that counts down is used only under a dominating test that keeps it at 0 or above (directly, or through `i > v` with v shown non-negative); G3X an index that counts up to the length of one slice is used on another only under a dominating test that the other is at least as long; G-NILMAP no assignment m[k] = v to a map that may still be the nil zero value of its variable on some path; G8 an untrusted value used as an index is compared with the length of the slice first (or has too few bits to exceed a fixed table); G5 every integer division by a non-constant is dominated by a non-zero test (through unexported helpers: at every call site). Does not decide computed indices of the NAL walkers (value-range reasoning), nor time constants."
 	r.Assume("taint is flow-insensitive on struct fields and on the elements of slice-typed fields; arguments reach the parameters of static callees and, through the VTA call graph, of interface and function-value callees; for allocations and reading loops a guard is a dominating comparison that shares a taint root and, when the other side is untainted, bounds the tainted side from above on the way taken (its arithmetic is not checked)")
 	entries := entriesC16(c)
 	scope, _ := scopeFrom(c, entries)
@@ -37,6 +38,14 @@ func checkC16(c *Ctx, r *Report) {
 		r.Undecided("G-NILMAP", "scope", "", fmt.Sprintf("only %d map updates found in the codec helpers", n))
 	}
 	requireFixture(r, "G-NILMAP", "nilMapUpdate", func(fc *Ctx, s *Report) { ruleNilMapUpdate(fc, s, nil) })
+	ruleG3X(c, r, scope)
+	ruleNegConv(c, r, func(f *ssa.Function) bool { return scope[f] || strings.HasPrefix(SSAFuncName(f), "mp4.") })
+	requireFixture(r, "L-NEGCONV", "lastStartWrong", func(fc *Ctx, s *Report) { ruleNegConv(fc, s, nil) })
+	if n := ruleG3D(c, r, func(f *ssa.Function) bool { return scope[f] }); n < 4 {
+		r.Undecided("G3D", "scope", "", fmt.Sprintf("only %d indices counting down found in the codec helpers (the Annex B trailing-zero trims expected)", n))
+	}
+	requireFixture(r, "G3D", "carryDown", func(fc *Ctx, s *Report) { ruleG3D(fc, s, nil) })
+	requireFixture(r, "G3X", "crossIndexWrong", func(fc *Ctx, s *Report) { ruleG3X(fc, s, fixtureAllFuncs(fc)) })
 	if n := ruleG11(c, r, scope); n < 3 {
 		r.Undecided("G11", "scope", "", "cursor walks (ParseCEA608) not found")
 	}
